@@ -26,6 +26,8 @@ NumCase make_case(const Spec &s, int prec, const std::vector<uint64_t> &entropy,
     if (c.cb_kind == 0) { c.cb[0] = d.logU(0.1L, 10.0L); c.cb[1] = c.cb[2] = 0; }
     else if (c.cb_kind == 1) { c.cb[0] = d.logU(0.1L, 10.0L); c.cb[1] = d.U(-1.0L, 1.0L); c.cb[2] = d.logU(100.0L, 5000.0L); }
     else { c.cb[0] = d.U(0.1L, 5.0L); c.cb[1] = d.U(0.1L, 5.0L); c.cb[2] = d.U(0.1L, 5.0L); }
+    // equilibrium constants span dozens of decades in practice (cold gas: K_eq << machine epsilon): scale the family member accordingly
+    { bool sc = d.coin(0.4); long double e = d.U(-30.0L, 10.0L); if (sc) { long double f = powl(10.0L, e); c.cb[0] *= f; if (c.cb_kind == 2) { c.cb[1] *= f; c.cb[2] *= f; } } }
     if (!prec) for (int i = 0; i < 3; i++) c.cb[i] = (double)c.cb[i]; }
   for (auto &kv : p) c.params[kv.first] = prec ? kv.second : (long double)(double)kv.second;
   for (int i = 0; i < 4; i++) c.pt[i] = prec ? pt[i] : (long double)(double)pt[i];
